@@ -251,6 +251,16 @@ Definition path_step (st : fsnode * list Z) (l : list Z) : (fsnode * list Z) * l
   | 41 :: sz :: p => if forallb (fun k => 0 <=? k) p && (0 <=? sz) then
                        match create fs p (FFile sz) with Some fs' => ((fs', cwd), [1]) | None => (st, [PRE]) end
                      else (st, [PRE])
+  | 43 :: k :: p =>
+      (* fill the directory p with k one-byte files named 1000, 1001, ... *)
+      if (1 <=? k) && (k <=? 5000) && p_is_dir fs p && negb (p_exists fs (p ++ [1000])) then
+        match fold_left (fun acc i => match acc with
+                                      | Some f => create f (p ++ [1000 + Z.of_nat i]) (FFile 1)
+                                      | None => None end) (seq 0 (Z.to_nat k)) (Some fs) with
+        | Some fs' => ((fs', cwd), [1])
+        | None => (st, [PRE])
+        end
+      else (st, [PRE])
   | 42 :: p => if forallb (fun k => 0 <=? k) p && negb (is_prefix p cwd) then
                  match remove_entry fs p with Some fs' => ((fs', cwd), [1]) | None => (st, [PRE]) end
                else (st, [PRE])
